@@ -43,7 +43,7 @@ def _result(w, ops, t0, extra=None):
         c.finish(w)
     r = {'ops': ops, 'events': w.events, 'digest': w.digest(), 'viol': w.viol, 'stats': w.stats,
          'states': sorted(w.states), 'fs_fired': list(w.fs.fired), 'wall': time.time() - t0,
-         'interleaving': getattr(w, 'interleaving', None)}
+         'interleaving': getattr(w, 'interleaving', None), 'cover': sorted(w.cover)}
     if extra:
         r.update(extra)
     return r
